@@ -599,14 +599,33 @@ func BuildDoc(r *kit.Rand, cfg DocConfig) (*Doc, error) {
 			refs := make([]pdf.Reference, n)
 			objs := make([]pdf.Object, n)
 			args := make([]shared, n)
+			ownNumbers := r.Chance(1, 5) // numbers chosen by the caller, above everything allocated so far
+			delimiterPairs := r.Chance(1, 6)
 			for j := range refs {
 				refs[j] = alloc()
 				o := genObj(2, true)
 				if _, isRef := o.(pdf.Reference); isRef {
 					o = pdf.Array{o}
 				}
+				if delimiterPairs {
+					// members whose text ends in a delimiter, followed by members that
+					// start with a regular character
+					o = []pdf.Object{pdf.Name(""), pdf.Integer(5), pdf.Name(""), pdf.Boolean(true), pdf.Array{}, pdf.Real(-0.5), pdf.Name(""), nil, pdf.String(""), pdf.Integer(7)}[j%10]
+				}
 				objs[j] = o
 				args[j] = shared{val: o, snap: Clone(o)}
+			}
+			if ownNumbers {
+				// (the numbers allocated above stay unwritten; the first free number
+				// is left to the container the Writer allocates for itself)
+				for j := range refs {
+					d.Unwritten = append(d.Unwritten, refs[j])
+				}
+				highest++
+				for j := range refs {
+					highest += uint32(1 + r.Intn(40))
+					refs[j] = pdf.NewReference(highest, 0)
+				}
 			}
 			if cfg.WithRejected && r.Chance(1, 3) {
 				bad := append([]pdf.Object{}, objs...)
